@@ -61,7 +61,8 @@ func genC11(t *rapid.T) (raceCase, bool, []string) {
 		c.Size = rapid.IntRange(130, 700).Draw(t, "members")
 		c.Goroutines = pick(t, "n", 1, 2, 4)
 	case "shared-import":
-		c.Expr = pick(t, "expr", "//{./m}", "//{./m} + //{./n}", "[//{./n}, //{./m}, //{./n}]", "//{/m}", "//{./sub/k}")
+		c.Expr = pick(t, "expr", "//{./m}", "//{./m} + //{./n}", "[//{./n}, //{./m}, //{./n}]", "//{/m}", "//{./sub/k}",
+			"//{./bad}", "[//{./m}, //{./viabad}]", "//{./missing}", "//{./failing}")
 		c.Size = rapid.IntRange(1, 5).Draw(t, "depth")
 	default:
 		c.Expr = pick(t, "expr", "a where .y = 1", "a where .x % 3 = 0", "a => .y", "a where (.y = 6 && 1(2)) || .y < 6", "a => (x: .x, z: .x * 2)", "a orderby .x")
@@ -296,11 +297,7 @@ func checkRaceCase1(c raceCase, fail func(string, ...interface{}) *Failure) *Fai
 				results[g] = result{key: "error", err: true}
 				return
 			}
-			d, an := obs.Denote(v)
-			results[g] = result{key: d.Key()}
-			if len(an) > 0 {
-				results[g].key += " ANOMALY " + an[0]
-			}
+			results[g] = result{key: bigKey(v, want)}
 		}(g)
 	}
 	close(start)
@@ -312,7 +309,7 @@ func checkRaceCase1(c raceCase, fail func(string, ...interface{}) *Failure) *Fai
 			return fail("goroutine %d got %.300s\nbut goroutine 0 got %.300s", g, r.key, results[0].key)
 		}
 	}
-	if want != nil && results[0].key != want.Key() {
+	if want != nil && results[0].key != bigKey(nil, want) {
 		return fail("every goroutine got %.400s\nbut the inputs give %.400s", results[0].key, want.Key())
 	}
 	if strings.Contains(c.Expr, "1(2)") && !results[0].err {
@@ -322,8 +319,7 @@ func checkRaceCase1(c raceCase, fail func(string, ...interface{}) *Failure) *Fai
 	v, err := expr.Eval(ctx, scope)
 	after := "error"
 	if err == nil {
-		d, _ := obs.Denote(v)
-		after = d.Key()
+		after = bigKey(v, want)
 	}
 	if after != results[0].key && !(results[0].err && err != nil) {
 		return fail("evaluated alone afterwards the result is %.300s, concurrently it was %.300s", after, results[0].key)
@@ -344,9 +340,17 @@ func checkSharedImport(c raceCase, fail func(string, ...interface{}) *Failure) *
 	_ = afero.WriteFile(fs, "/m.arrai", []byte(chain), 0o644)
 	_ = afero.WriteFile(fs, "/n.arrai", []byte("//{./m} * 2"), 0o644)
 	_ = afero.WriteFile(fs, "/sub/k.arrai", []byte("//{/n} + //{/m}"), 0o644)
+	// modules that cannot be imported: every goroutine must get the error (none may wait forever
+	// for the one that tried first)
+	_ = afero.WriteFile(fs, "/bad.arrai", []byte("1 +"), 0o644)
+	_ = afero.WriteFile(fs, "/viabad.arrai", []byte("//{./bad} + 1"), 0o644)
+	_ = afero.WriteFile(fs, "/failing.arrai", []byte("let x = 1; (x: x).y"), 0o644)
 	m := 7 + c.Size
 	want := map[string]string{"//{./m}": fmt.Sprint(m), "//{./m} + //{./n}": fmt.Sprint(3 * m), "//{/m}": fmt.Sprint(m), "//{./sub/k}": fmt.Sprint(3 * m),
 		"[//{./n}, //{./m}, //{./n}]": fmt.Sprintf("[%d, %d, %d]", 2*m, m, 2*m)}[c.Expr]
+	if want == "" {
+		want = "error"
+	}
 	ctx := importcache.WithNewImportCache(obs.CtxFs(fs, afero.NewMemMapFs()))
 	results := make([]string, c.Goroutines)
 	start := make(chan struct{})
@@ -369,7 +373,12 @@ func checkSharedImport(c raceCase, fail func(string, ...interface{}) *Failure) *
 	}
 	close(start)
 	if !callWithin(3*hangBound, wg.Wait) {
-		return fail("the evaluations did not all finish")
+		f := fail("the evaluations did not all finish (goroutines waiting for an import that another goroutine is compiling)")
+		f.Sig = "hang@importcache.getOrAdd"
+		if known("C11", f.Sig) {
+			return nil
+		}
+		return f
 	}
 	for g, r := range results {
 		if r != want {
@@ -377,6 +386,37 @@ func checkSharedImport(c raceCase, fail func(string, ...interface{}) *Failure) *
 		}
 	}
 	return nil
+}
+
+// bigKey is the text two results are compared by: the canonical key of the
+// denoted value, or, for a set too large to denote (the observation layer stops
+// at 5000 members), its count and which members of the expected set it has.
+// bigKey(nil, want) is the key a correct result has.
+func bigKey(v rel.Value, want *model.V) string {
+	if want == nil || want.K != model.KSet || want.Count() <= 4000 {
+		if v == nil {
+			return want.Key()
+		}
+		d, an := obs.Denote(v)
+		if len(an) > 0 {
+			return d.Key() + " ANOMALY " + an[0]
+		}
+		return d.Key()
+	}
+	if v == nil {
+		return fmt.Sprintf("set of %d members, %d of the %d expected ones", want.Count(), want.Count(), want.Count())
+	}
+	s, ok := v.(rel.Set)
+	if !ok {
+		return "not a set: " + obs.Repr(v)
+	}
+	has := 0
+	for _, e := range want.Elems {
+		if s.Has(obs.ToRel(e)) {
+			has++
+		}
+	}
+	return fmt.Sprintf("set of %d members, %d of the %d expected ones", s.Count(), has, want.Count())
 }
 
 func relOf(n int, row func(i int) *model.V) *model.V {
